@@ -35,8 +35,10 @@ try:
     from wsaccel.utf8validator import Utf8Validator
 
     def _validate_utf8(utfbytes: Union[str, bytes]) -> bool:
-        result: bool = Utf8Validator().validate(utfbytes)[0]
-        return result
+        # validate() returns (valid, endsOnCodePoint, currentIndex, totalIndex):
+        # a sequence cut short at the end is still "valid so far"
+        valid, ends_on_code_point = Utf8Validator().validate(utfbytes)[:2]
+        return bool(valid and ends_on_code_point)
 
 except ImportError:
     # UTF-8 validator
